@@ -461,8 +461,19 @@ def batches(calls, nsrc):
     return out
 
 
-def run_history(q, h):
-    """execute one history on the real library; returns the executed trace"""
+def run_history(q, h, want_order=None):
+    """execute one history on the real library; returns the executed trace.  Which row of the
+    offsets the library hands to which source follows the iteration order of a set of random UUIDs
+    and so differs from process to process: a replay re-executes the history (new measurement objects
+    each time) until the recorded order comes up again"""
+    for _ in range(40):
+        tr = _run_history_once(q, h)
+        if not want_order or tr.get("order") == want_order:
+            break
+    return tr
+
+
+def _run_history_once(q, h):
     M.reset(q, h["global"])
     np.random.seed(h["npseed"])
     srng = random.Random(h["shape_seed"])
@@ -471,7 +482,8 @@ def run_history(q, h):
         warnings.simplefilter("ignore")
         d, meas, desc, everywhere = M.shaped_formula(q, h["shape"], srng)
         tr["desc"], tr["everywhere"] = desc, everywhere
-        nsrc = len(M.source_order(q, d, meas))
+        tr["order"] = M.source_order(q, d, meas)
+        nsrc = len(tr["order"])
         tr["nsrc"] = nsrc
         if h["method"] == "global":
             q.set_error_method(q.ErrorMethod.MONTE_CARLO)
@@ -592,7 +604,7 @@ def hist_describe(h, tr, upto=None):
 
 def judge_history(h, tr, m, failures, dist):
     """compare the executed trace with the model run; returns non-trivial flag"""
-    base = {"case": {"history": h}}
+    base = {"case": {"history": h}, "order": tr.get("order")}
     if "fail" in m:
         failures.append(dict(base, signature="model-error", kind="disagreement", what=m["fail"],
                              input=hist_describe(h, tr)))
@@ -771,10 +783,10 @@ def check_init(ctx, tr, failures):
                          "case": {"init": True}})
 
 
-def run_histories(ctx, n, hists=None, ref=False):
+def run_histories(ctx, n, hists=None, ref=False, orders=None):
     import qexpy as q
     hists = hists or [gen_history(ctx.rng, ctx.quick, 3, 25 if ctx.quick else 60) for _ in range(n)]
-    traces = [run_history(q, h) for h in hists]
+    traces = [run_history(q, h, (orders or {}).get(i)) for i, h in enumerate(hists)]
     mods = ctx.model([model_line(h, t) for h, t in zip(hists, traces)], ref=ref)
     failures, nontrivial = [], set()
     dist = collections.Counter()
@@ -857,8 +869,17 @@ def replay(ctx, rp):
     if "history" in c:
         # a model regenerated from a changed tree is not known to be correct: the proved reference
         # tables are used then
-        r = run_histories(ctx, 0, hists=[c["history"]], ref=ctx.tables_changed(SECTIONS))
-        return {"fails": bool(r["failures"]), "failures": r["failures"]}
+        # observed until the recorded row order of the sources has come up again (see run_history)
+        # and, with more than one source, at least 4 times; fails when any observation fails
+        use_ref = ctx.tables_changed(SECTIONS)
+        target = f.get("order") or []
+        two = c["history"].get("shape") in ("sum", "prod")        # the shapes with two sources
+        for tries in range(4 if two else 1):
+            r = run_histories(ctx, 0, hists=[c["history"]], ref=use_ref,
+                              orders={0: target if tries == 0 else None})
+            if r["failures"]:
+                break
+        return {"fails": bool(r["failures"]), "failures": r["failures"], "observations": tries + 1}
     if c.get("init"):
         r = run_histories(ctx, 0, hists=[gen_history(random.Random(0))])
         fs = [x for x in r["failures"] if x["signature"] == "c16:init"]
